@@ -453,18 +453,18 @@ def handle (st : St) (cmd : String) (args : List Nat) : St × String :=
         s!"lrvalid 0 closed={F.closed st.g} start={LRV.hasItem (I 0) 0 0 []} badstates={bad.take 5}")
     | _, _ => (st, "bad-lrvalid")
   | "glr" =>
-    -- glr <fuel>: the GLR driver model on the current grammar, table and input; packed alternatives reachable
-    -- from the accepted heads: sym s e prod n (sym s e)*
+    -- glr <fuel> <consume> <lexdis>: the GLR driver model on the current grammar, table and input; packed alternatives of
+    -- the forest: sym s e prod n (sym s e)*
     match st.T, st.inp, args with
-    | some T, some inp, [fuel] =>
-      (st, match GLR.parseGLR st.g T inp fuel with
+    | some T, some inp, [fuel, consume, lexdis] =>
+      (st, match GLR.parseGLR st.g T inp (consume != 0) (lexdis != 0) fuel with
         | .forest s =>
           let alts := GLR.reachableAlts T s ((s.links.size + 2) * (s.links.size + 2) * 8 + 1000)
           "glr forest " ++ natList (alts.flatMap (fun a =>
             [encSym a.1.1, a.1.2.1, a.1.2.2, a.2.1, a.2.2.length] ++
               a.2.2.flatMap (fun k => [encSym k.1, k.2.1, k.2.2])))
         | .syntaxError => "glr syntax"
-        | .lexAmbiguous => "glr lexamb"
+        | .orderSensitive => "glr ordersens"
         | .crash => "glr crash"
         | .outOfFuel => "glr fuel")
     | _, _, _ => (st, "bad-glr")
